@@ -125,3 +125,36 @@ func ZZH_C02_block_delivery() {
 	}
 	zz.Assert("C02.delivery.counter-equals-accepted", ic.InterchainCounter["1356:chB:sB"] == accepted)
 }
+
+// ZZH_C02_same_tx_twice: a block that carries the very same interchain request transaction twice (the
+// pool de-duplicates by hash, a proposer need not): the request is accepted once - the second copy is
+// rejected - and listed once in the block's delivery set for its destination; the counter is 1.
+// zz:also C08
+func ZZH_C02_same_tx_twice() {
+	exec := zzNewExec(1, big.NewInt(0))
+	sv := &zzStubVerify{verdict: make([]uint8, 8), seen: make([]int, 8)}
+	exec.ibtpVerify = sv
+	exec.config.ProofType = "serial"
+	zzInterchainWorld(exec)
+	exec.processExecuteEvent(zzBlockOf(1, nil))
+	req := zzRequestTx(1, 0, 0)
+	txs := []pb.Transaction{req, req}
+	if zz.Choice("otherTxBetween", 2) == 1 {
+		txs = []pb.Transaction{req, zzTransferTx(zzUsers[1], zzUsers[0], 0, 1, "0"), req}
+	}
+	crashed, _ := zz.Crashed(func() { exec.processExecuteEvent(zzBlockOf(2, txs)) })
+	zz.Assert("C08.block-executes", !crashed)
+	if crashed {
+		return
+	}
+	im, err := exec.ledger.GetInterchainMeta(2)
+	zz.Assert("C02.twice.meta-stored", err == nil)
+	zz.Assert("C02.twice.listed-once", zzDelivered(im, "chB") == 1)
+	ic := &pb.Interchain{}
+	ok, data := exec.ledger.GetState(constant.InterchainContractAddr.Address(), []byte(contracts.INTERCHAINSERVICE_PREFIX+"-"+zzSrcFullID()))
+	if ok {
+		_ = ic.Unmarshal(data)
+	}
+	zz.Assert("C02.twice.counter-is-one", ic.InterchainCounter["1356:chB:sB"] == 1)
+	zz.Assert("C09.meta.interchain-count", exec.ledger.GetChainMeta().InterchainTxCount == 1)
+}
